@@ -48,6 +48,23 @@ CHECKS = {
              "corroborates values. Held on the trees observed, with two recorded known findings.",
         note="Standard precedence table with lenient left-associative comparisons; SQLite semantics for value corroboration.",
         ref="DESIGN.md section 4 C06"),
+    "C07": dict(
+        technique="differential tokenisation of name vs marker renderings with reference dialect lexers; sqlite3 prepares against a schema carrying the names",
+        text="Complete product emission site (47 sites) x name class (30) x dialect plus seeded random names: the rendering with "
+             "the name and with a marker must tokenise identically except at identifier tokens, which must be quoted with the "
+             "dialect's quote and denote exactly the name at the definition and every reference; SQLite prepares the statement "
+             "against a schema with those names. Held on the cases observed, with recorded known findings (no escaping of the "
+             "quote character; bare CTE names).",
+        note="Identifier lexing rules per dialect are the trusted base for the non-SQLite dialects.",
+        ref="DESIGN.md section 4 C07"),
+    "C13": dict(
+        technique="reference lexer + per-dialect clause-order tables over all call subsets; all-orders permutation comparison; sqlite3 parser",
+        text="All subsets of clause-setting calls per statement kind and dialect are rendered: no lexical errors, balanced "
+             "brackets, each top-level clause once and in the dialect's order, empty string while incomplete, SQLite parser "
+             "accepts; every order of each 2..5-call group of commuting calls must render the same SQL; repeated calls "
+             "accumulate in call order. Held on the executions observed, with three recorded known findings.",
+        note="Clause-order tables are the reference for non-SQLite dialects; only SQLite has an engine parser here.",
+        ref="DESIGN.md section 4 C13"),
     "C09": dict(
         technique="differential tokenisation isolates the row-limiting tail, matched against a per-dialect reference grammar; SQLite executes",
         text="The complete product limit x offset x setter/call order x ORDER BY x embedding position x dialect x "
